@@ -345,8 +345,9 @@ def lattice_class(name):
         kinds = [[x, r] for x in (0.5, 1.5, 2.5, 3.5) for r in (0.5, 0.75)]
         return {"dim": 1, "kinds": kinds, "grid": [[0.0, 4.0, 4, True]], "cutoffs": [None, 1.0, 1.5]}
     if name == "1d-2x2":
-        kinds = [[x, r] for x in (0.5, 1.5) for r in (0.5, 0.75)]
-        return {"dim": 1, "kinds": kinds, "grid": [[0.0, 3.0, 3, True]], "cutoffs": [None, 1.0, 0.5]}
+        # at distance 1: 0.375+0.375 apart, 0.375+0.625 touching (not an overlap), 0.625+0.625 overlapping
+        kinds = [[x, r] for x in (0.5, 1.5) for r in (0.375, 0.625)]
+        return {"dim": 1, "kinds": kinds, "grid": [[0.0, 2.0, 2, True]], "cutoffs": [None, 1.0, 0.5]}
     if name == "2d-2x2":       # 2 x 2 lattice, one radius, periodic in x only (period 3)
         kinds = [[x, y, 0.625] for x in (0.5, 2.5) for y in (0.5, 1.5)]
         return {"dim": 2, "kinds": kinds, "grid": [[0.0, 3.0, 3, True], [0.0, 2.0, 2, False]],
@@ -386,7 +387,9 @@ def random_history(rng: random.Random, max_frames=8, max_drops=5, allow_nonmonot
     grid = [[0.0, L, int(L), periodic[ax]] for ax in range(dim)] if rng.random() < 0.6 else None
     nf = rng.randint(0, max_frames)
     step = rng.choice([0.25, 0.5, 1.0])
-    radii = [0.25, 0.5, 0.75, 1.0, 1.25]
+    # dense: frequent overlaps inside a frame; sparse: small radii, mostly non-overlapping frames (the class C07 and the
+    # second half of C06 quantify over)
+    radii = [0.25, 0.5, 0.75, 1.0, 1.25] if rng.random() < 0.4 else [0.125, 0.25, 0.25, 0.375]
     frames = []
     cur = []
     uid = 0
@@ -420,7 +423,7 @@ def random_history(rng: random.Random, max_frames=8, max_drops=5, allow_nonmonot
         fr = []
         for d in new:
             uid += 1
-            base = round(d[-1] * 4) / 4
+            base = round(d[-1] * 8) / 8
             fr.append([float(x) for x in d[:-1]] + [base + uid * 2.0 ** -20])
         frames.append(fr)
         cur = [list(d) for d in fr]
@@ -767,11 +770,14 @@ def process(item):
         res = run_impl(hist, cfg, deep=(n == 0))
         outs.append((cfg, res))
         fs = []
-        if pid == "C06":
-            fs = oracle_C06(hist, cfg, res, ov)
-        else:
-            fs = oracle_C07(hist, cfg, res, ov, D)
-            fs += drift_failures(hist, cfg, res)
+        try:
+            if pid == "C06":
+                fs = oracle_C06(hist, cfg, res, ov)
+            else:
+                fs = oracle_C07(hist, cfg, res, ov, D)
+                fs += drift_failures(hist, cfg, res)
+        except Exception as e:  # noqa -- a result the oracle cannot even interpret is a failure of the property
+            fs = [f"result cannot be judged by the property oracle ({type(e).__name__}: {str(e)[:120]})"]
         for f in fs:
             fails.append((cfg, f))
     if pid == "C07":
@@ -833,7 +839,7 @@ def build_items(ctx, rng, pid):
     if ctx.quick:
         plan = [("1d-2x2", 3, 2), ("1d-3x2", 2, 2), ("2d-2x2", 2, 2)]
     else:
-        plan = [("1d-3x2", 3, 2), ("1d-4x2", 2, 2), ("2d-2x2", 3, 2), ("2d-2x2x2", 2, 2)]
+        plan = [("1d-2x2", 3, 2), ("1d-3x2", 3, 2), ("1d-4x2", 2, 2), ("2d-2x2", 3, 2), ("2d-2x2x2", 2, 2)]
     for name, maxframes, maxdrop in plan:
         cls = lattice_class(name)
         n = 0
